@@ -49,11 +49,19 @@ __attribute__((weak)) myth_verif_choice_t g_myth_verif_choice;
 #define MYTH_VERIF_EVENT(id, obj, val) \
   MYTH_VERIF_CALL_(MYTH_VERIF_KIND_EVENT, id, obj, val)
 
+/* a point in expression position:  if (MYTH_VERIF_POINT_E(...) expr)  */
+static inline int myth_verif_point_e_(const char * id, const void * obj, long val) {
+  MYTH_VERIF_POINT(id, obj, val);
+  return 1;
+}
+#define MYTH_VERIF_POINT_E(id, obj, val) myth_verif_point_e_(id, obj, val) &&
+
 #else  /* MYTH_VERIF */
 
 #define MYTH_VERIF_POINT(id, obj, val) ((void)0)
 #define MYTH_VERIF_SPIN(id, obj)       ((void)0)
 #define MYTH_VERIF_EVENT(id, obj, val) ((void)0)
+#define MYTH_VERIF_POINT_E(id, obj, val)
 
 #endif /* MYTH_VERIF */
 
